@@ -71,7 +71,10 @@ static inline cstl_iter F_(_emplace)(MP_ *P, M_ *m, CSTL_K k, CSTL_V v)
         if (!P->alive[n]) break;
     if (n == CSTL_NP) cstl_fail("native: multimap node pool exhausted (model bound)");
 #endif
-    P->alive[n] = true; P->kv[n].first = k; P->kv[n].second = v; P->seq[n] = m->seqctr++;
+    P->alive[n] = true; P->kv[n].first = k; P->kv[n].second = v;
+#ifndef CSTL_CBMC
+    P->seq[n] = m->seqctr++;
+#endif
     m->size++;
     return n;
 }
